@@ -120,57 +120,64 @@ def r1_schemes(ctx):
 def r2_subsumption(ctx):
     for cfg in ('dev', 'rel'):
         cr = ctx.crate(cfg)
-        isub = RM + 'make_union::is_subsumed'
-        an = analyse(ctx, cfg, isub, [], uninterpreted=lambda p: not p.endswith('PartialEq>::eq') and not p.endswith('PartialEq<&B> for &A>::ne'))
-        r, a = A(0), A(1)
-        for o in an.rets:
-            f = o.value
-            ok = f[0] == 'quant' and f[1] == 'any' and f[2] == a
-            if ok:
-                x = ('elem', a, f[3])
-                body = f[4]
-                differs = ne(T.fld(x, 'id', 'usize'), T.fld(r, 'id', 'usize'))
-                ok = T.valid_iff([], body, AND(differs, sub(r, x)))
-            ctx.obligation(ok)
-            (ctx.ok if ok else ctx.violation)('C16.R2', 'C16.R2/is_subsumed/other-operand-that-includes-r', an.fn.path, an.fn.site(), {'returned': T.show(f)[:300]}, cfg)
-        # remove_subsumed: each iteration tests a[i] against a and removes index i iff subsumed, else advances i
+        # remove_subsumed: every way round its loop tests the current operand a[i] against all operands, removes it at its
+        # own index iff some OTHER operand includes it, and advances i otherwise.  The test may be a helper (is_subsumed)
+        # or written in place, with any()/a loop: it is read in closed form (loopsum) from the facts of the iteration.
+        from .. import loopsum
         rs = RM + 'make_union::remove_subsumed'
         fn = cr.fn(rs)
         if fn is None:
             ctx.unanalysable('C16.R2', 'C16.R2/remove_subsumed/missing', rs, None, None, cfg)
             continue
-        ip = X.Interp(cr, uninterpreted=lambda p: p == isub)
+        ip = X.Interp(cr, uninterpreted=lambda p: not p.endswith('is_subsumed') and not p.endswith('PartialEq>::eq') and not p.endswith('PartialEq<&B> for &A>::ne'))
         st = ip.start_state(fn, arg_names=['a0'])
         ip.run(st)
         ctx.absorb(ip, rs)
-        backs = [b for b in ip.back_states if b[0] == rs]
-        okn = len(backs) >= 2
+        outer = {}
+        for b in ip.back_states:
+            if b[0] == rs:
+                calls = b[2].calls[b[2].ghost.get(('iter-start', len(b[2].frames), b[1]), 0):]
+                outer.setdefault(b[1], []).append((b, calls))
+        # the operand loop is the one whose iterations remove from the vector
+        heads = [h for h, bs in outer.items() if any(c[0].endswith('Vec::<T, A>::remove') for _, calls in bs for c in calls)]
+        okn = len(heads) == 1 and len(outer[heads[0]]) >= 2
         ctx.obligation(okn)
-        (ctx.ok if okn else ctx.violation)('C16.R2', 'C16.R2/remove_subsumed/loop-shape', rs, fn.site(), {'back_edges': len(backs)}, cfg)
-        for (_, head, bst, bmap, valid, cur) in backs:
-            calls = bst.calls[bst.ghost.get(('iter-start', len(bst.frames), head), 0):]
-            tests = [c for c in calls if c[0] == isub]
+        (ctx.ok if okn else ctx.violation)('C16.R2', 'C16.R2/remove_subsumed/loop-shape', rs, fn.site(), {'heads': sorted(outer)}, cfg)
+        roles = set()
+        for (b, calls) in (outer[heads[0]] if okn else []):
+            (_, head, bst, bmap, valid, cur) = b
+            inst = None
+            for hv, ev in bmap:
+                inst = loopsum.inst_of(hv) or inst
+            facts = loopsum.summarise_facts(ip, bst, skip={inst})
             removes = [c for c in calls if c[0].endswith('Vec::<T, A>::remove')]
             ivars = [hv for hv, ev in bmap if T.TYPES.get(hv) == 'usize']
-            ok = len(tests) == 1 and len(ivars) >= 1
+            qs = [loopsum.qnorm(f) for f in facts]
+            qs = [q for q in qs if q is not None]
+            ok = len(qs) == 1 and len(ivars) >= 1
+            role = 'one-test-per-iteration'
             if ok:
-                tested = tests[0][1][0]
-                ok = tested[0] == 'elem' and tested[2] in ivars
+                kind, dom, k, body = qs[0]
+                x = ('elem', dom, k)
+                # the operand tested: a[i] for an index variable i of the loop
+                cand = [i for i in ivars if T.valid_iff([], body if kind == 'any' else NOT(body),
+                                                        AND(ne(T.fld(x, 'id', 'usize'), T.fld(('elem', dom, i), 'id', 'usize')), sub(('elem', dom, i), x)))]
+                ok = len(cand) == 1
+                role = 'tests-current-operand-against-every-other-operand'
                 if ok:
-                    i = tested[2]
-                    res = T.typed(('call', isub, tests[0][1]), 'bool')
-                    if res in bst.pcset:
+                    i = cand[0]
+                    if kind == 'any':
                         ok = len(removes) == 1 and removes[0][1][1] == i and cur.get(i) == i
                         role = 'subsumed-operand-removed-at-its-own-index'
                     else:
                         ok = not removes and cur.get(i) == T.mk_add(i, I(1))
                         role = 'kept-operand-skipped'
-                else:
-                    role = 'tests-current-operand'
-            else:
-                role = 'one-test-per-iteration'
+            roles.add(role)
             ctx.obligation(ok)
-            (ctx.ok if ok else ctx.violation)('C16.R2', 'C16.R2/remove_subsumed/%s' % role, rs, fn.site(), {'calls': [T.show(('call',) + c)[:160] for c in calls]}, cfg)
+            (ctx.ok if ok else ctx.violation)('C16.R2', 'C16.R2/remove_subsumed/%s' % role, rs, fn.site(), {'calls': [T.show(('call',) + c)[:160] for c in calls], 'facts': [T.show(f)[:200] for f in facts][-4:]}, cfg)
+        ok = {'subsumed-operand-removed-at-its-own-index', 'kept-operand-skipped'} <= roles
+        ctx.obligation(ok)
+        (ctx.ok if ok else ctx.violation)('C16.R2', 'C16.R2/remove_subsumed/both-cases-present', rs, fn.site(), {'roles': sorted(roles)}, cfg)
 
 
 def r3_anchoring(ctx):
